@@ -48,9 +48,12 @@ Record agg := mkAgg {
   a_comp : string; a_name : string; a_type : string; a_unit : string;
   a_value : Z; a_count : Z; a_min : Z; a_max : Z; a_ts : Z }.
 
-(* computeAggregateKey: bare concatenation, no separator *)
+(* computeAggregateKey (after fix 7beb2ab): for each of the four fields in order,
+   strconv.Itoa(len(field)) ++ ":" ++ field   (len = number of bytes) *)
+Definition lenpfx (f : string) : string :=
+  (dec (N.of_nat (String.length f)) ++ ":" ++ f)%string.
 Definition akey (s : stat) : string :=
-  (s_comp s ++ s_name s ++ s_type s ++ s_unit s)%string.
+  (lenpfx (s_comp s) ++ lenpfx (s_name s) ++ lenpfx (s_type s) ++ lenpfx (s_unit s))%string.
 
 Definition bucket_time (w ts : Z) : Z := w * Z.quot ts w.
 
